@@ -9,7 +9,33 @@ import (
 )
 
 var customCodes = []string{"SOMECODE", "MY_CUSTOM_CODE", "X", "", "UNKNOWN", "lower_case", "NOT_FOUND",
-	"RANGE_INVALID_X", "BLOB", "码_X", "A__B", "CODE WITH SPACE", "C:D"}
+	"RANGE_INVALID_X", "BLOB", "码_X", "A__B", "CODE WITH SPACE", "C:D",
+	// near misses of table codes: the specification assigns them no status and no identity
+	"denied", "Name_Unknown", "toomanyrequests", "blob_upload_invalid", "DENIED ", " UNAUTHORIZED", "BLOB-UNKNOWN",
+	"MANIFEST UNKNOWN", "UNSUPPORTE", "RANGE_INVALI", "XDENIED", "SIZE__INVALID", "DIGEST_INVALID_"}
+
+// nearMisses are codes that are NOT the table code std but close to it: other letter case, one
+// character dropped / added / replaced, the separator written differently, padding.
+func nearMisses(std string) []string {
+	title := strings.ToUpper(std[:1]) + strings.ToLower(std[1:])
+	mid := len(std) / 2
+	return []string{
+		strings.ToLower(std),
+		title,
+		std[:len(std)-1],
+		std[1:],
+		std + "S",
+		"X" + std,
+		std + " ",
+		" " + std,
+		strings.ReplaceAll(std, "_", "-"),
+		strings.ReplaceAll(std, "_", " "),
+		std[:mid] + std[mid+1:],
+		std[:mid] + strings.ToLower(std[mid:mid+1]) + std[mid+1:],
+		std + "_",
+		strings.ReplaceAll(strings.ReplaceAll(std, "I", "1"), "O", "0"),
+	}
+}
 
 var statuses = []int{400, 401, 403, 404, 405, 409, 416, 418, 429, 451, 499, 500, 501, 502, 503, 504, 599}
 
@@ -214,6 +240,31 @@ func generate(rn *runner, cfg *hx.Config) {
 	for _, e := range ownProbes {
 		for _, cn := range []string{"GetBlob", "ResolveManifest", "PushManifest", "DeleteBlob", "Referrers", "PatchWrite"} {
 			rn.scenario(scenario{Err: e, Carrier: cn, Hops: maxHops}, "own-type")
+		}
+	}
+	// 1c. custom codes that are near misses of a table code (the lower-case spelling of every
+	//     one, plus two further spellings each, rotating): bare (500 expected) and under an HTTP
+	//     wrapper whose status is not the neighbour's table status, over a body and a HEAD carrier
+	for i, v := range stds {
+		std := v.Err.Code()
+		nm := nearMisses(std)
+		seen := map[string]bool{std: true}
+		for j, code := range []string{nm[0], nm[1+(2*i)%(len(nm)-1)], nm[1+(2*i+1)%(len(nm)-1)]} {
+			if seen[code] {
+				continue
+			}
+			seen[code] = true
+			kind := []string{"wire", "own"}[(i+j)%2]
+			st := statuses[(i+3*j)%len(statuses)]
+			if _, tableStatus := ociregistry.MarshalError(v.Err); st == tableStatus {
+				st = 418
+			}
+			bare := &ErrSpec{Kind: kind, Code: code, Msg: "near miss"}
+			wrapped := &ErrSpec{Kind: "http", Status: st, Inner: &ErrSpec{Kind: kind, Code: code, Msg: prefixText(code) + ": near miss", Detail: `{"n":1}`}}
+			for _, cn := range []string{"GetManifest", "ResolveTag"} {
+				rn.scenario(scenario{Err: bare, Carrier: cn, Hops: 2}, "near-miss-code")
+				rn.scenario(scenario{Err: wrapped, Carrier: cn, Hops: 2}, "near-miss-code")
+			}
 		}
 	}
 	// 2. fixed probes: every wrapper status class over one body carrier, one HEAD carrier, one wrapped carrier
